@@ -217,6 +217,18 @@ CHECKS = {
         "k iterations later; three-valued close-code oracle; write stalls not explored.",
         "5/C13",
     ),
+    "C17": (
+        "exploration",
+        "exhaustive enumeration of redirect chains (origins x statuses x secret kind, bounded length) plus Hypothesis-sampled "
+        "chains over all Location forms, methods, body kinds, secrets and max_redirects, run through a real ClientSession "
+        "against logging in-memory origin servers; an information-flow model over the servers' logs is the oracle",
+        "In every chain explored: caller secrets and URL credentials reach only the origin they were given for (no "
+        "resurrection after A->B->A), jar cookies are exactly those of each hop's host, method/body follow the documented "
+        "table, at most max_redirects requests are made, non-HTTP/unparsable targets raise without a further request, and "
+        "history lists the released intermediate responses in order with no connection left acquired.",
+        "Trusts the origin servers' request parser and the flow model in the check; TLS and real proxies are not simulated.",
+        "5/C17",
+    ),
 }
 
 REASON_PENDING = "check not built yet in this round (design in DESIGN.md section 5); not claimed until it runs quietly on the unchanged tree"
